@@ -76,6 +76,11 @@ type Ctx struct {
 	// mean allocating a timer and a closure per request.
 	timer *time.Timer
 	armed bool
+
+	// gotStatus is set once the response's final header block, the one with a
+	// :status of 200 or above, has arrived. The read loop owns it while it
+	// holds the Ctx.
+	gotStatus bool
 }
 
 // acquire takes ownership of the Ctx for the connection. It reports false once
@@ -206,6 +211,7 @@ func acquireCtx(req *fasthttp.Request, res *fasthttp.Response) *Ctx {
 	ctx.resolved = false
 	ctx.finished = false
 	ctx.armed = false
+	ctx.gotStatus = false
 
 	ctx.conn.Store(nil)
 
